@@ -1,4 +1,5 @@
 import SynKitModel.ITS
+import SynKitModel.RsmiGraph
 import SynKitProofs.ITSLemmasC01
 import SynKitProofs.ImplicitHLemmas
 /-!
@@ -295,26 +296,20 @@ end C01Example
 reaction centre, and calls `graph_to_smi(side, preserve_atom_maps=that list)` on both sides;
 `graph_to_smi` applies `implicit_hydrogen(side, set(list))` when the list is non-empty (and nothing
 when it is empty) and passes the result to `GraphToMol` / RDKit.  `implicit_hydrogen` is modelled by
-`SynKit.Repr.implicitHydrogen` (tied to the implementation by the C10 correspondence check).
+`SynKit.Repr.implicitHydrogen` (tied to the implementation by the C10 correspondence check); the
+glue itself is modelled in `SynKitModel/RsmiGraph.lean` (tied to the implementation by the C01
+`rsmi-graphs` correspondence stream).
 Everything after that point is RDKit and is not modelled. -/
 
 section RsmiGraphPart
 open SynKit.Repr SynKit.Repr.ImplH
 
-/-- `[d["atom_map"] for _, d in get_rc(its).nodes(data=True) if d.get("element") == "H"]`
-(on the modelled domain every node carries an integer `atom_map`; a missing key makes the Python
-code return `None`, here the entry is dropped). -/
-def rcHydrogenMaps (I : LGraph) : List Nat :=
-  ((getRc {} I).nodes.filter fun p => isH p.2).filterMap fun p => atomMapOf p.2
-
-/-- The graph `graph_to_smi(g, preserve_atom_maps=keep)` passes to `GraphToMol`:
-`implicit_hydrogen(g, set(keep))` if `keep` is non-empty, `g` itself otherwise. -/
-def smiGraph (g : LGraph) (keep : List Nat) : LGraph :=
-  if keep.isEmpty then g else implicitHydrogen g keep
-
-/-- The pair of graphs `its_to_rsmi(I)` passes to the SMILES writer (`explicit_hydrogen=False`). -/
-def rsmiGraphs (I : LGraph) : LGraph × LGraph :=
-  (smiGraph (decompose I).1 (rcHydrogenMaps I), smiGraph (decompose I).2 (rcHydrogenMaps I))
+/-! The three definitions the theorems below are about — `rcHydrogenMaps I` (the
+`preserve_atom_maps` list), `smiGraph g keep` (the graph `graph_to_smi` passes to `GraphToMol`),
+`rsmiGraphs I` (the pair `its_to_rsmi` hands to the SMILES writer) — are executable model
+definitions in `SynKitModel/RsmiGraph.lean`; the driver runs them (`its.rsmiGraphs`,
+`its.smiGraph`) and the C01 harness compares them with what the real `its_to_rsmi` passes to
+`implicit_hydrogen` / `GraphToMol.graph_to_mol` on every run. -/
 
 /-- **C01, RDKit clause, graph part (1): `implicit_hydrogen` keeps the total hydrogen count.**
 `G` a simple graph; guard `FoldGuard G keep`: every hydrogen node that is *not* preserved
